@@ -47,23 +47,23 @@ prop("C13", True, "sched", MC, "stateless model checking (preemption-bounded DFS
 
 ENGINE_NOTE = TRUST + "Real kernel sockets (AF_UNIX), this kernel's epoll semantics; delay-bounded schedules (every departure from the default schedule costs one unit), environment deviations limited to answers the kernel could give; bounds per scenario are in the evidence. "
 prop("C01", True, "sched", MC, "stateless model checking (delay- and deviation-bounded DFS under a cooperative scheduler) of the real engine on real unix sockets",
-     "For each (LT|ET|ET+chunk, segmentation, FIN placement): every schedule within the delay bound x every per-callback consumption choice (13 read operations) and LT short-read deviation within the deviation bound; positional content oracle, consumed+InboundBuffered == bytes read(2), views intact until the next read call, everything offered before OnClose, nothing left unread at quiescence; plus the pending-outbound-then-close scenario.",
+     "For each (LT|ET|ET+chunk, segmentation, FIN placement): every schedule within the delay bound x every per-callback consumption choice (13 read operations) and LT short-read deviation within the deviation bound; positional content oracle, consumed+InboundBuffered == bytes read(2), views intact until the next read call, everything offered before OnClose, nothing left unread at quiescence; plus the pending-outbound-then-close scenario and scripted histories that wrap the leftover ring (Peek/Read/Discard over ring head, ring tail and the fresh read buffer) and make Next/Read span a short leftover and the fresh buffer.",
      ENGINE_NOTE + "Server side, 1 loop, reactor mode; tcp/client/poll_opt/gc_opt variants only where listed in the evidence units.", "DESIGN.md §5/C01")
 prop("C02", True, "sched", MC, "stateless model checking (delay- and deviation-bounded DFS) of the real engine's write path on real unix sockets",
      "For each (LT|ET, write program over Write/Writev/ReadFrom+Flush/AsyncWrite/AsyncWritev/OnOpen reply): every schedule within the delay bound x every kernel acceptance pattern (short writes, EAGAIN) within the deviation bound, plus real back-pressure; the peer must receive exactly the accepted payloads contiguous and in effect order, OutboundBuffered accounting against the ledger, nothing stays unsent while the peer reads.",
      ENGINE_NOTE, "DESIGN.md §5/C02")
 prop("C04", True, "sched", MC, "stateless model checking (delay-bounded DFS) of the real engine over a catalogue of connection histories",
-     "About 30 connection histories (peer close, half close, Close action from OnOpen/OnTraffic/OnClose, async Close/CloseWithCallback/Wake/AsyncWrite racing with closes, EventLoop.Close inside a callback, failing Write, late requests after descriptor re-use, a framework-deferred read (ET chunk limit) meeting descriptor re-use in reactor mode and over TCP with SO_REUSEPORT, shutdown with open connections, cross-loop closes; client side: connected UDP sockets incl. late requests after re-use, two-loop client, failing Enroll) x {LT,ET}: per-connection lifecycle monitor, error classification, CountConnections at quiescence, on every explored execution.",
+     "About 30 connection histories (peer close, half close, Close action from OnOpen/OnTraffic/OnClose, async Close/CloseWithCallback/Wake/AsyncWrite racing with closes, EventLoop.Close inside a callback, failing Write, late requests after descriptor re-use, a framework-deferred read (ET chunk limit) meeting descriptor re-use in reactor mode and over TCP with SO_REUSEPORT, shutdown with open connections, cross-loop closes; a close while OnOpen is still running, Conn.Dup held across the close, a loop dying of a hard accept error; client side: connected UDP sockets incl. late requests after re-use and a zero-length datagram, two-loop client, failing Enroll) x {LT,ET}: per-connection lifecycle monitor, error classification, CountConnections at quiescence, on every explored execution.",
      ENGINE_NOTE, "DESIGN.md §5/C04")
 prop("C06", True, "sched", MC, "stateless model checking (delay-bounded DFS, virtual time) of the real engine's shutdown paths",
-     "Shutdown requested from every documented source (Engine.Stop, package Stop, Shutdown action from OnOpen/OnTraffic/OnClose/OnTick/OnBoot, Client.Stop) (also from an OnTraffic that already closed its connection, and from an OnTraffic caused by Wake) in idle/accepting/pending-output/busy-sender/async-in-flight/ticker/two-listener situations, incl. the SO_REUSEPORT mode's ticker (UDP listener) and the shutdown that follows a hard accept error, x {LT,ET}: Run returns nil within the step horizon, OnShutdown once, every opened connection closed once before the return, nothing afterwards.",
+     "Shutdown requested from every documented source (Engine.Stop, package Stop, Shutdown action from OnOpen/OnTraffic/OnClose/OnTick/OnBoot, Client.Stop) (also from an OnTraffic that already closed its connection, and from an OnTraffic caused by Wake) from OnOpen of a registered connection and from OnTraffic of a registered connected UDP socket, in idle/accepting/pending-output/busy-sender/async-in-flight/ticker/two-listener situations, incl. the SO_REUSEPORT mode's ticker (UDP listener) and the shutdown that follows a hard accept error, x {LT,ET}: Run returns nil within the step horizon, OnShutdown once, every opened connection closed once before the return, nothing afterwards.",
      ENGINE_NOTE + "Bounded time = bounded scheduler steps under fairness; virtual clock.", "DESIGN.md §5/C06")
 prop("C07", True, "sched", MC, "stateless model checking (delay-bounded DFS) of the real engine with a descriptor ledger in the system-call shim as oracle",
-     "The C04 histories and the C06 shutdown scenarios evaluated with the ledger: ownership of every fd number, framework calls on closed/foreign descriptors, double close, leaks at the return of Run, unix-socket file removal.",
+     "The C04 histories, the C06 shutdown scenarios (incl. requests through a Conn kept after Run returned) and C18's start-up faults evaluated with the ledger: ownership of every fd number, framework calls on closed/foreign descriptors, double close, leaks at the return of Run, unix-socket file removal.",
      ENGINE_NOTE + "Descriptors created by package net are outside the ledger.", "DESIGN.md §5/C07")
 
 prop("C18", True, "sched", "fault_enumeration", "exhaustive fault enumeration (every call index of every I/O-path system-call site x errno menu) on the real engine under the cooperative scheduler",
-     "Two checked echo connections and a liveness probe x {LT,ET} x {small, ring-crossing payloads}: all single faults, all pairs of faults and all single faults combined with one schedule deviation (quick), two schedule deviations (thorough); only the victim may be affected, exactly one OnClose with a non-nil error iff opened, descriptor released, engine keeps serving, retryable errors invisible. Plus: start-up resource exhaustion (epoll_create1/eventfd/registration failing), transient accept errors in SO_REUSEPORT mode (TCP), closing a connection whose socket is really full (persistent EAGAIN) while a bystander must be served, and a failing registration in Client.Enroll.",
+     "Two checked echo connections and a liveness probe x {LT,ET} x {small, ring-crossing payloads}: all single faults, all pairs of faults and all single faults combined with one schedule deviation (quick), two schedule deviations (thorough); only the victim may be affected, exactly one OnClose with a non-nil error iff opened, descriptor released, engine keeps serving, retryable errors invisible. Plus: start-up resource exhaustion and address conflicts (socket/bind/listen of TCP and UDP listeners, epoll_create1/eventfd/registration failing; reactor and SO_REUSEPORT/UDP mode), transient accept errors and a failing registration of the accepted socket in SO_REUSEPORT mode (TCP, with a liveness probe), closing a connection whose socket is really full (persistent EAGAIN) while a bystander must be served, and a failing registration in Client.Enroll.",
      ENGINE_NOTE + "Errno menu per site is an assumption listed in the evidence; eventfd/listener registration faults are not injected.", "DESIGN.md §5/C18")
 prop("C19", True, "sched", MC, "stateless model checking (delay- and deviation-bounded DFS) of the control API against a reference state machine",
      "Zero Engine handle; sequences of control calls from a 10-call alphabet while running, racing with shutdown (second thread) and after shutdown; Stop(live ctx) nil only when the ledger shows pollers/listeners closed; Stop(cancelled ctx) returns the context error and the shutdown still completes; second Stop harmless; Register delivers exactly one result; Register and Client.Enroll with an injected epoll_ctl(ADD) failure deliver an error, close the duplicate once and leave the engine/client serving; Register of an unsupported Unix-domain socket kind delivers exactly one (error) result; a Runnable handing on the in-shutdown error is not a shutdown request; after a loop died of a hard accept error (EMFILE, injected; reactor mode and TCP/SO_REUSEPORT) the handle reports the in-shutdown state, every connection was closed and no descriptor is left.",
